@@ -63,6 +63,17 @@ void DecodeDATA(IntType CodeIntType, IntType DataIntType) {
                 t.Contents.Int &= UnknownMask;
             }
 
+            /* room for one more (up to 32 bit wide) word resp. two per string character */
+
+            if (SetMaxCodeLen(
+                        ((LongWord)CodeLen + 1
+                         + ((t.Typ == TempString) ? 2 * t.Contents.str.len : 0))
+                        * 4)) {
+                WrStrErrorPos(ErrNum_CodeOverflow, &ArgStr[z]);
+                ValOK = False;
+                break;
+            }
+
             switch (t.Typ) {
             case TempFloat:
                 WrStrErrorPos(ErrNum_StringOrIntButFloat, &ArgStr[z]);
